@@ -170,6 +170,22 @@ def run(ctx):
     deep = app(['csv', 'database-resolved'], {b'food.yaml': b'a:\n  a: 1\n', b'log.yaml': b''}, g={'maxdepth': 100000000}, kind='csv database-resolved maxdepth=1e8')
     deep.meta['style'] = 'deep'
     cases.append(deep)
+    # ... the same bound arriving through the environment and through the configuration file, and other absurd depths
+    cyc = {b'food.yaml': b'a:\n  b: 1\nb:\n  a: 2\n', b'log.yaml': b'2021/01/24:\n  a: 1\n'}
+    for path in (['csv', 'database-resolved'], ['reg'], ['bal'], ['report', 'totals']):
+        for depth in (100000000, 10001, -1, 0, 9223372036854775807):
+            for src in ('flag', 'env', 'cfg'):
+                g_, e_, cfg_ = {}, {}, None
+                if src == 'flag':
+                    g_['maxdepth'] = depth
+                elif src == 'env':
+                    e_['maxdepth'] = depth
+                else:
+                    cfg_ = {'where': 'flag', 'path': 'my.cfg', 'exists': True, 'entries': {'MaxDepth': depth}}
+                    g_['config'] = 'my.cfg'
+                c = app(path, cyc, g=g_, env=e_, cfg=cfg_, disk=True, kind='%s maxdepth=%d via %s on a cyclic book' % (' '.join(path), depth, src), exact=False)
+                c.meta['style'] = 'deep'
+                cases.append(c)
     impl, model = run_apps(ctx, cases)
     judge(ctx, cases, impl)
     for c in cases:
